@@ -346,6 +346,42 @@ def _rule_registry(repo, col, funcs):
     col.floor("Y5.check_mode_sites", n, 6)
 
 
+def rule_y6(repo, col):
+    """ClauseDBEngine.ground, goal without answers: a positive goal is named FALSE, a NEGATED goal is named TRUE under its negated name (subquery evidence such as [\\+d(3)] reaches
+    ground() with the negation still on the term)"""
+    from .. import dtable
+
+    f = repo.func("problog.engine", "ClauseDBEngine.ground")
+    m = f.module
+    paths = dtable.extract(f.node, opaque_loops=True)
+    n = 0
+    bad = []
+    for p_ in paths:
+        cd = dict((s_, t_) for s_, t_, _ in p_.conds)
+        empty = None
+        for s_, t_ in cd.items():
+            if s_.replace(" ", "").endswith("[1]") and "self._ground(" in s_:
+                empty = (not t_)
+            if s_ in ("results", "not results"):
+                empty = (not t_) if s_ == "results" else t_
+        if empty is not True:
+            continue
+        nv = p_.env.get("negated")
+        if nv not in ("True", "False"):
+            continue
+        neg = nv == "True"
+        names = [a for fn, a, _ in p_.calls if fn == "target.add_name"]
+        n += 1
+        if len(names) != 1 or not names[0][1].endswith(".TRUE" if neg else ".FALSE") or (neg and not names[0][0].startswith("-")) or (not neg and names[0][0].startswith("-")):
+            bad.append("%s goal without answers -> %s" % ("negated" if neg else "positive", names[0][:2] if names else "no name"))
+    if n < 2:
+        raise AnalysisError("ClauseDBEngine.ground: no-answer cases not found (%d)" % n)
+    col.decide("Y6", m, f.node, not bad, "a goal without answers is named FALSE, a negated one TRUE",
+               "ClauseDBEngine.ground: %s - a goal that has no answers is false, so its negation is TRUE and must be registered as (-term, TRUE): otherwise subquery(q, P, [\\+d(3)]) with "
+               "no d(3) in the program conditions on an impossible event (InconsistentEvidenceError) and subquery(\\+d(3), P) answers 0 instead of 1" % "; ".join(sorted(set(bad))),
+               construct="ClauseDBEngine.ground: goal without answers", function="ClauseDBEngine.ground")
+
+
 def run(repo, col):
     col.rule("Y1", "the goal is grounded once, on the caller's database, as a query")
     col.rule("Y2", "every evidence element is grounded into the same formula as positive evidence (negation by ground())")
@@ -361,3 +397,5 @@ def run(repo, col):
     _rule_ground_negation(repo, col)
     _rule_registry(repo, col, funcs)
     col.floor("C26.functions", len(funcs), 2)
+    col.rule("Y6", "ground(): a goal without answers is FALSE, its negation TRUE")
+    rule_y6(repo, col)
